@@ -190,6 +190,11 @@ class Machine:
 	def family(self, h):
 		"""handles that may legitimately change when writing through h"""
 		fam = {h.hid}
+		if h.prov.startswith("view"):
+			# the same column object handed out twice by view operations is one object, not an alias
+			for o in self.pool:
+				if o.obj is h.obj and o.prov.startswith("view"):
+					fam.add(o.hid)
 		if h.kind == "vector" and h.owner:
 			t, pos = h.owner
 			fam.add(t.hid)
@@ -994,6 +999,8 @@ def rect_violation(t):
 		return None    # not a table of column vectors (nested / higher-dimensional): not judged
 	if any(isinstance(c, Table) for c in cols):
 		return None
+	if any(isinstance(x, Vector) for c in cols for x in c._underlying):
+		return None    # a cell that holds a vector makes the object higher-dimensional by design: not judged
 	lens = [len(c) for c in cols]
 	n = len(t)
 	if len(set(lens)) > 1:
